@@ -85,14 +85,22 @@ Section PDEF.
     match pd_in p with
     | LPath => f
     | LQuery =>
-        let explode := match pd_explode p with Some b => b | None => false end in   (* `Explode != nil && *Explode` *)
+        (* written the way the parameter's serialization method reads it back: exploded or joined by the
+           style's delimiter (before the repair in /repo: `Explode != nil && *Explode`, always ",") *)
+        let explode := eff_explode p in
+        let st := eff_style p in
+        let delim := if String.eqb st "spaceDelimited" then " " else if String.eqb st "pipeDelimited" then "|" else "," in
         let vals := match d with
-                    | JArr l => if explode then map sprint l else [join_texts l]
+                    | JArr l => if explode then map sprint l else [join delim (map sprint l)]
                     | _ => [sprint d]
                     end in
         mkFrag (f_path f) (f_query f ++ [(pd_name p, vals)]) (f_header f) (f_cookie f)
-    | LHeader => mkFrag (f_path f) (f_query f) (f_header f ++ [(pd_name p, [sprint d])]) (f_cookie f)
-    | LCookie => mkFrag (f_path f) (f_query f) (f_header f) (f_cookie f ++ [(pd_name p, sprint d)])
+    | LHeader =>
+        let t := match d with JArr l => join_texts l | _ => sprint d end in
+        mkFrag (f_path f) (f_query f) (f_header f ++ [(pd_name p, [t])]) (f_cookie f)
+    | LCookie =>
+        let t := match d with JArr l => join_texts l | _ => sprint d end in
+        mkFrag (f_path f) (f_query f) (f_header f) (f_cookie f ++ [(pd_name p, t)])
     end.
 End PDEF.
 
